@@ -12,6 +12,8 @@ import (
 	"strings"
 	"sync"
 	"time"
+
+	"github.com/TarsCloud/TarsGo/tars/util/vhook"
 )
 
 // DEBUG loglevel
@@ -447,6 +449,9 @@ func flushLog() {
 		case v := <-logQueue:
 			v.writer.Write(v.value)
 		default:
+			if vhook.Enabled {
+				vhook.At("rogger.flush.between")
+			}
 			select {
 			case v := <-logQueue:
 				v.writer.Write(v.value)
